@@ -541,7 +541,7 @@ func verifC08CloseAfterRestart() {
 		verifReach("slow-network")
 		gate := make(chan struct{})
 		w.net.gate = gate
-		k := verifChoice(3 + 3*verifTier())
+		k := verifChoice(3 + verifTier())
 		go func() {
 			if k == 0 { // as late as it can: when nothing else can move any more
 				verifLetOthersRun()
@@ -554,7 +554,7 @@ func verifC08CloseAfterRestart() {
 	}
 	verifAssert(a.OnCandidate(func(Candidate) {}) == nil, "handler")
 	verifAssert(a.GatherCandidates() == nil, "GatherCandidates")
-	for n := verifChoice(2 + 2*verifTier()); n > 0; n-- {
+	for n := verifChoice(2 + verifTier()); n > 0; n-- {
 		runtime.Gosched()
 	}
 	err := a.Restart("c08newufrag", "c08newpasswordc08newpassword")
@@ -585,7 +585,7 @@ func verifC08CloseAfterRegather() {
 	w.net.gate, w.net.gateFirstOnly = gate, true
 	// the slow step ends after 0..1 hand-overs, or as late as it can: when
 	// nothing else in the system can move any more
-	k := verifChoice(2 + 4*verifTier())
+	k := verifChoice(2 + verifTier())
 	go func() {
 		if k == 0 {
 			verifLetOthersRun()
